@@ -9,6 +9,7 @@ import Goat.ClientStream
 import Goat.ServerConn
 import Goat.Proxy
 import Goat.Demux
+import Goat.OpenStream
 namespace Goat
 
 def muxCfg (c : Cfg) (statsHandlers : Bool) : Mux.Cfg :=
@@ -30,5 +31,7 @@ def proxyCfg (c : Cfg) (name : Bytes) : Proxy.Cfg :=
 
 def demuxCfg (c : Cfg) (key : Env → Bytes) : Demux.Cfg :=
   { demuxOn := key, cancelUsesDone := c.demuxCancelUsesDone, handoffSelects := c.demuxHandoffSelects }
+
+def openCfg (c : Cfg) : OpenStream.Cfg := { openFailureTearsDown := c.openFailureTearsDown }
 
 end Goat
